@@ -370,3 +370,74 @@ async fn pool_is_swept_after_a_block() {
         }
     }
 }
+
+/// C14: a failed block addition hands the block's transactions back to the pool; afterwards the pool still holds no two
+/// transactions spending the same output, and every value-carrying input of a pooled transaction is reserved (so that a
+/// later conflicting transaction is refused). History: transaction X2 is pooled; a block created under this node's key
+/// that carries X (same inputs as X2) fails validation — and the same with X2 arriving after the failure.
+#[test]
+#[serial_test::serial]
+fn failed_block_addition_keeps_the_pool_consistent() {
+    let (tx_done, rx_done) = std::sync::mpsc::channel::<Option<String>>();
+    std::thread::spawn(move || {
+        let rt = tokio::runtime::Builder::new_current_thread().enable_all().build().unwrap();
+        rt.block_on(async move {
+            for scenario in 0..3 {
+                let conflicting_first = scenario == 0;
+                let spent_meanwhile = scenario == 2;
+                let mut t = TestManager::default();
+                t.initialize(100, 200_000_000_000_000).await;
+                let (b1, ts) = { let bc = t.blockchain_lock.read().await; let b = bc.get_latest_block().unwrap(); (b.hash, b.timestamp) };
+                let (pk, sk) = { let w = t.wallet_lock.read().await; (w.public_key, w.private_key) };
+                let mut b2 = t.create_block(b1, ts + 120000, 1, 1000, 0, true).await;
+                let x = b2.transactions.iter().find(|tx| tx.transaction_type == TransactionType::Normal && tx.from.iter().any(|s| s.amount > 0)).unwrap().clone();
+                // the same inputs spent by a second, equally valid transaction
+                let mut x2 = x.clone();
+                x2.data = vec![9, 9, 9];
+                x2.sign(&sk);
+                x2.generate(&pk, 0, 0);
+                assert!(x2.signature != x.signature);
+                {
+                    let bc = t.blockchain_lock.read().await;
+                    assert!(x.validate(&bc.utxoset, &bc, true) && x2.validate(&bc.utxoset, &bc, true), "setup: both transactions are valid on their own");
+                }
+                if conflicting_first { t.mempool_lock.write().await.add_transaction(x2.clone()).await; }
+                if spent_meanwhile {
+                    // the ledger has moved on: X's inputs are spent by the time the block fails
+                    let mut bc = t.blockchain_lock.write().await;
+                    for s in x.from.iter() { if s.amount > 0 { bc.utxoset.insert(s.utxoset_key, false); } }
+                }
+                // the block is invalid (its burn fee is not the one its parent dictates)
+                b2.burnfee += 1; b2.sign(&sk); b2.generate().unwrap();
+                let tip_before = t.blockchain_lock.read().await.get_latest_block_hash();
+                let _ = t.add_block(b2).await;
+                assert_eq!(t.blockchain_lock.read().await.get_latest_block_hash(), tip_before, "setup: the block must be rejected");
+                if scenario == 1 { t.mempool_lock.write().await.add_transaction(x2.clone()).await; }
+                let mp = t.mempool_lock.read().await;
+                if spent_meanwhile && mp.transactions.contains_key(&x.signature) {
+                    let _ = tx_done.send(Some(format!("a transaction of a failed block whose inputs are spent in the ledger was handed back to the pool: inputs {:?}",
+                        x.from.iter().filter(|s| s.amount > 0).map(|s| (s.block_id, s.tx_ordinal, s.slip_index)).collect::<Vec<_>>())));
+                    return;
+                }
+                let has_x = mp.transactions.contains_key(&x.signature);
+                let has_x2 = mp.transactions.contains_key(&x2.signature);
+                if has_x && has_x2 {
+                    let _ = tx_done.send(Some(format!("after a failed block addition the pool holds two transactions spending the same output ({}): inputs {:?}",
+                        if conflicting_first { "the conflicting transaction was pooled before the block failed" } else { "the conflicting transaction arrived after the block failed and was admitted: the returned transaction's inputs are not reserved" },
+                        x.from.iter().filter(|s| s.amount > 0).map(|s| (s.block_id, s.tx_ordinal, s.slip_index)).collect::<Vec<_>>())));
+                    return;
+                }
+                for tx in mp.transactions.values() { for s in tx.from.iter() { if s.amount > 0 && !mp.utxo_map.contains_key(&s.utxoset_key) {
+                    let _ = tx_done.send(Some(format!("after a failed block addition a pooled transaction's input ({},{},{}) is not reserved", s.block_id, s.tx_ordinal, s.slip_index)));
+                    return;
+                } } }
+            }
+            let _ = tx_done.send(None);
+        });
+    });
+    match rx_done.recv_timeout(std::time::Duration::from_secs(120)) {
+        Ok(None) => {}
+        Ok(Some(w)) => witness(w),
+        Err(_) => panic!("scenario did not finish within 120 s"),
+    }
+}
